@@ -1166,6 +1166,15 @@ class FileBuilder:
                 updates this according to the files that would be
                 created if we executed the operation.
         """
+        # Return False in cases where _build_file raises. Check this before
+        # we call _is_build_file_cached, because if another call is in the
+        # middle of building the file, then we must not compute (and remember)
+        # the comparison result for the unfinished file.
+        filename = operation.filename
+        if (self._new_cache.has_norm_cased_file(os.path.normcase(filename)) or
+                self._simple_operation_executor.is_cache_file(filename)):
+            return False
+
         if (not JsonUtil.is_equal(
                 self._old_cache.get_func_version(operation.func_name),
                 self._new_cache.get_func_version(operation.func_name)) or
@@ -1178,11 +1187,6 @@ class FileBuilder:
                 operation.setup_failed):
             return False
 
-        # Return False in cases where _build_file raises
-        filename = operation.filename
-        if (self._new_cache.has_norm_cased_file(os.path.normcase(filename)) or
-                self._simple_operation_executor.is_cache_file(filename)):
-            return False
         try:
             self._dirs_to_make(os.path.dirname(filename), created_files)
         except OSError:
